@@ -290,3 +290,51 @@ pub fn mass_sweep<B: RealBook>(seed: u64, n: usize, tied: bool) -> Result<u64, (
     }
     Ok(n as u64)
 }
+
+/// C11 on a level that holds more than 2^16 orders: the recorded row of a step must equal the live book's values
+/// (order counts and volumes far beyond 16 bits).
+pub fn mass_level_records<E: SimEnv>(seed: u64, n: usize) -> Result<u64, (String, String)> {
+    let mut rng = Sm::derive(seed, 0x4d4c);
+    let assets = E::ASSETS;
+    let ticks: Vec<u32> = (0..assets).map(|_| rng.range(1, 10) as u32).collect();
+    let t0 = rng.below(1000);
+    let step_size = n as u64 + 1000;
+    let mut env = E::create(t0, &ticks, step_size, true);
+    let a = rng.below(assets as u64) as usize;
+    let c = rng.range(50, 3000);
+    for k in 0..n + 200 {
+        // n bids on one level (the touch), two hundred asks over three levels
+        let bid = k < n;
+        let kk = if bid { c - 1 } else { c + 1 + (k as u64 % 3) };
+        env.place(a, bid, 1 + (k % 3) as u32, (k % 40) as u32, Some((kk * ticks[a] as u64) as u32)).map_err(|e| ("harness".to_string(), e))?;
+    }
+    let mut xr = Xoroshiro128StarStar::seed_from_u64(rng.next());
+    let mut rows = 0u64;
+    for step in 0..2 {
+        crate::util::catch(|| env.do_step(&mut xr)).map_err(|p| ("panic_in_step".to_string(), p))?;
+        for k in 0..assets {
+            let v = env.book(k).views();
+            let s = env.series(k);
+            let last = |x: &Vec<u32>| x.last().copied();
+            let checks: Vec<(&str, Option<u32>, u32)> = vec![
+                ("bid_price", last(&s.bid_price), v.bid_ask.0),
+                ("ask_price", last(&s.ask_price), v.bid_ask.1),
+                ("bid_vol", last(&s.bid_vol), v.bid_vol),
+                ("ask_vol", last(&s.ask_vol), v.ask_vol),
+                ("touch_bid_vol", last(&s.touch_bid_vol), v.bid_levels[0].0),
+                ("touch_ask_vol", last(&s.touch_ask_vol), v.ask_levels[0].0),
+                ("touch_bid_orders", last(&s.touch_bid_n), v.bid_levels[0].1),
+                ("touch_ask_orders", last(&s.touch_ask_n), v.ask_levels[0].1),
+                ("level_0_bid_orders", s.lvl_bid_n.first().and_then(last), v.bid_levels[0].1),
+                ("level_0_bid_volume", s.lvl_bid_vol.first().and_then(last), v.bid_levels[0].0),
+            ];
+            for (name, got, want) in checks {
+                if got != Some(want) || s.bid_price.len() != step + 1 {
+                    return Err(("recorded_series_differ_from_live_book".into(), format!("asset {} after step {} with {} orders on one level: {} recorded {:?} (series length {}), live book {}", k, step, n, name, got, s.bid_price.len(), want)));
+                }
+            }
+            rows += 1;
+        }
+    }
+    Ok(rows)
+}
